@@ -123,7 +123,7 @@ func vpC04SignerOpt(k int, crashes int, ioFaults int, maxH int, withProposals bo
 				}
 				p := &tmproto.Proposal{Type: tmproto.ProposalType, Height: h, Round: r, PolRound: -1, BlockID: vpBlockIDProto(block), Timestamp: ts}
 				if err := pv.SignProposal(vpChain, p); err == nil {
-					vp.Reach("proposal-released")
+					vp.Reach("proposal-released?")
 					vp.Assert(pub.VerifySignature(types.ProposalSignBytes(vpChain, p), p.Signature), "C04.signer.released-signature-verifies-for-released-proposal")
 					n := vpRelease{h, r, stepPropose, block, p.Signature, p.Timestamp}
 					vpCheckRelease(rels, n)
@@ -157,6 +157,7 @@ func VP_C04_Signer_k3_h2()           { vpC04Signer(3, 0, 2, true, false) }
 func VP_C04_Signer_k2_crash1()       { vpC04Signer(2, 1, 1, true, false) }
 func VP_C04_Signer_k3_crash1()       { vpC04Signer(3, 1, 1, true, false) }
 func VP_C04_Signer_k3_crash2()       { vpC04Signer(3, 2, 1, false, false) }
+func VP_C04_Signer_k2_crash2()       { vpC04Signer(2, 2, 1, true, false) }
 func VP_C04_Signer_k2_ioerr()        { vpC04SignerOpt(2, 0, 1, 1, true, false) }
 func VP_C04_Signer_k3_ioerr()        { vpC04SignerOpt(3, 0, 1, 1, true, false) }
 func VP_C04_Signer_k2_symts()        { vpC04Signer(2, 0, 1, true, true) }
